@@ -25,7 +25,7 @@ RULE = ('Same generated merges as C11 (1-4 probes, channel counts 2-7 and templa
         'n_channels_dat. non-trivial = distinct merges with >= 3 probes of pairwise different channel and '
         'template counts, or >= 2 probes with unsigned index tables.')
 EXHAUSTIVE = {'quick': False, 'thorough': False}
-FLOORS = {'quick': {'evaluations': 380, 'distinct_nontrivial': 80},
+FLOORS = {'quick': {'evaluations': 950, 'distinct_nontrivial': 200},
           'thorough': {'evaluations': 15000, 'distinct_nontrivial': 3000}}
 ASSUMPTIONS = c11.ASSUMPTIONS + ['when a matrix is missing in some probe the statement fixes no output: only "if '
                                  'the file is written it is the block-diagonal of all inputs" is judged',
